@@ -293,7 +293,94 @@ def run_abrupt(selector_name, nframes=3):
     return result
 
 
+def run_local_close(selector_name, at_event):
+    """C07 on real descriptors with the platform selector: the APPLICATION ends the transport itself - its handler calls
+    ws.session.close() (what leaving a ``with ws:`` block does) at the first <at_event> - and keeps iterating.  The
+    iteration must end with one terminal event.  Verdict by COUNTING, not by the clock: more than 300 further events
+    without a terminal one is a violation; running out of the time budget is inconclusive."""
+    from lomond import selectors
+    from lomond.session import WebsocketSession
+    from lomond.websocket import WebSocket
+
+    a, b = socket.socketpair()
+    a.settimeout(10)
+    b.settimeout(10)
+
+    class PairSession(WebsocketSession):
+        _selector_cls = getattr(selectors, selector_name)
+
+        def _connect(self):
+            return a, None
+
+    result = {"transport": "unix_socketpair", "selector": selector_name, "scenario": "session_closed_by_handler_at_" + at_event,
+              "violation": None, "inconclusive": None}
+    t0 = time.time()
+
+    def server():
+        try:
+            req = b""
+            while b"\r\n\r\n" not in req:
+                chunk = b.recv(4096)
+                if not chunk:
+                    return
+                req += chunk
+            key = [ln.split(b":", 1)[1].strip() for ln in req.split(b"\r\n") if ln.lower().startswith(b"sec-websocket-key")][0]
+            accept = base64.b64encode(hashlib.sha1(key + GUID).digest())
+            b.sendall(b"HTTP/1.1 101 Switching Protocols\r\nUpgrade: websocket\r\nConnection: Upgrade\r\n"
+                      b"Sec-WebSocket-Accept: " + accept + b"\r\n\r\n" + frame(1, b"hello") + frame(9, b"p"))
+        except Exception as error:
+            result["server_error"] = "%s: %s" % (type(error).__name__, error)
+
+    helper = threading.Thread(target=server, daemon=True)
+    helper.start()
+    names = []
+    try:
+        ws = WebSocket("ws://pair.test/", proxies={})
+        closed_at = None
+        for ev in ws.connect(session_class=PairSession, poll=0.05, ping_rate=0, close_timeout=2):
+            names.append(ev.name)
+            if closed_at is None and ev.name == at_event:
+                ws.session.close()
+                closed_at = len(names)
+            if closed_at is not None and len(names) - closed_at > 300:
+                result["violation"] = ("the application closed the session at event %d (%s); %d events later the iteration "
+                                       "still goes on without a terminal event (last: %s)" % (
+                                           closed_at - 1, at_event, len(names) - closed_at, names[-3:]))
+                break
+            if time.time() - t0 > BUDGET:
+                result["inconclusive"] = "time budget used up after %d events" % len(names)
+                break
+        else:
+            terminals = [n for n in names if n in ("connect_fail", "disconnected")]
+            if len(terminals) != 1 or names[-1] != terminals[0]:
+                result["violation"] = "iteration ended with events %s: not exactly one terminal event, last" % names[-8:]
+        if closed_at is None and not result["violation"] and not result["inconclusive"]:
+            result["inconclusive"] = "event %s never occurred: %s" % (at_event, names)
+    except Exception as error:
+        result["violation"] = "exception out of the iterator: %s: %s" % (type(error).__name__, error)
+    finally:
+        for s_ in (a, b):
+            try:
+                s_.close()
+            except Exception:
+                pass
+    result["events"] = names[:10]
+    result["n_events"] = len(names)
+    result["wall_s"] = round(time.time() - t0, 3)
+    return result
+
+
 def main():
+    if "c07" in sys.argv[1:]:
+        import logging
+        logging.getLogger("lomond").addHandler(logging.NullHandler())
+        logging.getLogger("lomond").propagate = False
+        out = []
+        for sel in ("PollSelector", "SelectSelector"):
+            for at in ("ready", "poll", "text", "ping"):
+                out.append(run_local_close(sel, at))
+        print(json.dumps(out))
+        return
     out = []
     for sel in ("PollSelector", "SelectSelector"):
         out.append(run_abrupt(sel))
